@@ -1,10 +1,13 @@
 """Registry entry for C03."""
 
 PROP = dict(
-    module="JadeModel.Props.C03", ns="Jade.C03",
+    module="JadeModel.Props.C03All", ns="Jade.C03",
     required=["C03_rows_equal_reference", "C03_classification", "C03_schedule_independent", "C03_rows_agree",
               "C03_finished_row_real", "C03_rows_stay", "C03_complete_once", "C03_queue_rows_eq_ref",
-              "C03_queue_independent_of_schedule", "C03_queue_one_row_per_job", "C03_queue_drains", "C03_summary_tally"],
+              "C03_queue_independent_of_schedule", "C03_local_equals_hpc", "C03_queue_one_row_per_job", "C03_queue_drains", "C03_summary_tally",
+              "C03_complete_no_missing", "C03_one_row_per_job", "C03_exactly_one_entry_per_job", "C03_complete_runs_agree",
+              "C03_complete_results_are_reference", "C03_one_row_per_job_calm", "C03_duplicate_needs_exception",
+              "C03_rows_only_for_configured_jobs"],
     suites=["system", "queue", "tally"],
     level_text="Machine-checked: (1) system model, ALL scenarios and ALL op sequences (any batching the C07 guard admits, any "
                "node limit, any interleaving of submitters and nodes, kills and write failures too): every row ever on disk "
@@ -12,10 +15,15 @@ PROP = dict(
                "invariants (OutcomeA/OutcomeB, by induction over the 29 operations) + a pure graph lemma (local consistency "
                "implies the reference outcome, by induction on rank); hence independence of schedule, batching and node "
                "limits; (2) node level / local mode (real JobQueue algorithm): a drained queue has exactly one row per job, "
-               "equal to the reference, for every poll schedule and worker count; (3) summary tally (C20). "
-               "PARTIAL for 'no missing job at completion' in HPC mode: the decision 'all done' is proved to need every job "
-               "done and a quiescent round is proved to submit or complete (C05), but that a fault-free run never takes the "
-               "forced-completion branch with an unfinished job is decided by the direct oracle on real executions only.",
+               "equal to the reference, for every poll schedule and worker count, and that reference IS the system-level one (bridge lemma), so local mode and HPC mode record the same outcome for every job; (3) summary tally (C20). "
+               "(4) COMPLETENESS, fault-free runs (runP: no crash / write failure / lost batch / failed sbatch / cancel; every "
+               "round collects all finished result files and submits every unblocked job unless the node limit is reached — both "
+               "replayed on every fault-free real execution): when the completion flag is on disk the consolidated results hold "
+               "exactly one entry per configured job, nothing else, no missing job, each the reference outcome "
+               "(C03_exactly_one_entry_per_job; Live0-Live5 invariants + one-row-per-job invariants PlainA-C); two complete runs of "
+               "the same jobs under any batching/limits/schedules have the same results. Duplicates need an exception inside a "
+               "submitter round (C03_duplicate_needs_exception). Not carried by a theorem: that a run REACHES completion "
+               "(termination; oracle on real executions + C05 round progress + C07 loop termination).",
     level_note="Tied to the code by history replay of real multi-process executions (plain/busy/local modes: real submit-jobs, "
                "run-jobs, try-submit-jobs entry points under the deterministic scheduler), the queue and tally correspondence "
                "suites and generated predicates. Direct oracle (independent of Lean): results.json of every completed real run "
